@@ -1,129 +1,36 @@
-(* C06, forward simulation of the x86-64 code generator, part 4: programs of the integer fragment.
-   - `int_frag`: every variable is `ext i64`, statements are Substitute / Call / Literal / Op / PrintI64 /
-     IfC / Exit;
-   - the frame above the spill area (callee-saved registers and the return marker pushed by the prologue)
-     and the epilogue `cleanup`;
+(* C07, forward simulation of the AArch64 code generator, part 3: programs of the integer fragment.
+   - the frame above the spill area (X19-X30 stored by the prologue) as "the stack above sp + SPILL_SPACE is
+     what the prologue left";
+   - progress: a linearly well-typed statement never gets stuck under the relation;
    - `sim_exec`: by induction on the fuel of the linear machine, the code emitted for a statement, placed
      in an image in which the definitions' labels and `cleanup` resolve, runs to the machine's observation
-     (results and undefined operations; print trace included). *)
+     (results and undefined operations; print trace included).  Port of Proof/X86SimProg.v. *)
 From Coq Require Import List ZArith NArith String Bool Lia FMapPositive.
-From SCC Require Import Base.Sexp Lang.AxSyn Sem.AxSem Model.ParMoves Model.Backend Model.X86 Sem.X86Sem Sem.X86Wf
+From SCC Require Import Base.Sexp Lang.AxSyn Sem.AxSem Model.ParMoves Model.Backend Model.A64 Sem.A64Sem
      Model.Linearize Model.LinCheck Generated.Constants Proof.LinBasics
-     Proof.X86State Proof.X86Sel Proof.X86Exec Proof.X86ParMoves Proof.SubstGraph Proof.X86Subst
-     Proof.X86SimRel Proof.X86SimStmt Proof.X86SimPrint.
-From SCC Require Export Proof.SimFrag.
+     Proof.A64State Proof.A64ImmHw Proof.A64Imm Proof.A64Sel Proof.A64PM Proof.A64Exec
+     Proof.A64MemSubst Proof.SubstGraph Proof.SubstBackends Proof.A64Subst Proof.A64Wf Proof.A64Print
+     Proof.A64SimRel Proof.A64SimStmt.
 Import ListNotations.
 Open Scope Z_scope.
 Open Scope list_scope.
-(* names that lived in this file before they moved to Proof/SimFrag.v (kept for qualified uses) *)
-Notation stmt_int := SimFrag.stmt_int (only parsing).
-Notation def_int := SimFrag.def_int (only parsing).
-Notation int_frag := SimFrag.int_frag (only parsing).
-Notation plain_names := SimFrag.plain_names (only parsing).
-Notation good := SimFrag.good (only parsing).
-Notation not_good_stuck := SimFrag.not_good_stuck (only parsing).
-Notation not_good_fuel := SimFrag.not_good_fuel (only parsing).
-Notation lookup_of_in := SimFrag.lookup_of_in (only parsing).
-Notation lookups_total := SimFrag.lookups_total (only parsing).
-Notation lookup_label_find_def := SimFrag.lookup_label_find_def (only parsing).
-Notation not_oof := SimFrag.not_oof (only parsing).
-Notation good_not_oof := SimFrag.good_not_oof (only parsing).
-
-(* ---------- the fragment ---------- *)
-(* stmt_int, def_int, int_frag, plain_names, good, not_oof: Proof/SimFrag.v *)
 
 (* ---------- the frame above the spill area ---------- *)
-Definition outer_ok (s : xstate) (sp : Z) : Prop :=
-  sp + SPILL_SPACE + 56 = STACK_TOP /\
-  kget s (sp + SPILL_SPACE) = Some (callee_marker 15) /\
-  kget s (sp + SPILL_SPACE + 8) = Some (callee_marker 14) /\
-  kget s (sp + SPILL_SPACE + 16) = Some (callee_marker 13) /\
-  kget s (sp + SPILL_SPACE + 24) = Some (callee_marker 12) /\
-  kget s (sp + SPILL_SPACE + 32) = Some (callee_marker 3) /\
-  kget s (sp + SPILL_SPACE + 40) = Some (callee_marker 2) /\
-  kget s (sp + SPILL_SPACE + 48) = Some RET_MARKER.
+(* st0 = the stack as the prologue left it: the words at and above sp + SPILL_SPACE hold X19..X29, X30 *)
+Definition outer_ok (st0 : PM.t Z) (sp : Z) (s : astate) : Prop :=
+  forall k, sp + SPILL_SPACE <= Z.pos k - 1 -> PM.find k (stack s) = PM.find k st0.
 
-Lemma above_eq_outer s s' sp : above_eq s s' sp -> outer_ok s sp -> outer_ok s' sp.
+Lemma above_eq_outer st0 s s' sp : above_eq s s' sp -> outer_ok st0 sp s -> outer_ok st0 sp s'.
 Proof.
-  intros (_ & K) (A & B). split; [exact A|]. change SPILL_SPACE with 2048 in *.
-  rewrite !K by lia. exact B.
+  intros (_ & K) O k Hk. rewrite K; [apply O; exact Hk|]. change SPILL_SPACE with 2048 in Hk. lia.
 Qed.
-Lemma frame_eq_above s s' sp : sp_ok sp -> frame_eq s s' sp -> above_eq s s' sp -> True.
-Proof. auto. Qed.
-Lemma frame_eq_outer s s' sp : sp_ok sp -> frame_eq s s' sp -> outer_ok s sp -> outer_ok s' sp.
+Lemma frame_eq_outer st0 s s' sp : sp_ok sp -> frame_eq s s' sp -> outer_ok st0 sp s -> outer_ok st0 sp s'.
 Proof.
-  intros SP (_ & _ & K) (A & B). split; [exact A|]. change SPILL_SPACE with 2048 in *.
-  assert (G : forall a, sp + 2048 <= a -> kget s' a = kget s a).
-  { intros a Ha. unfold kget. apply K. intros p P E.
-    destruct (slot_addr_facts sp p SP P) as (_ & _ & _ & _ & NN).
-    apply key_inj in E; [|unfold sp_ok, STACK_LIMIT, STACK_TOP in SP; lia|exact NN].
-    unfold slot_addr, stack_offset in E. change SPILL_SPACE with 2048 in E. lia. }
-  rewrite !G by lia. exact B.
+  intros SPK (_ & _ & K) O k Hk. rewrite K; [apply O; exact Hk|].
+  intros p P E. destruct (slot_addr_facts sp p SPK P) as (_ & _ & _ & _ & NN).
+  subst k. unfold key in Hk. rewrite Z2Pos.id in Hk by lia.
+  unfold slot_addr, stack_offset in Hk. lia.
 Qed.
-
-Section Epilogue.
-Variable im : image.
-
-Lemma step_ADDI_frame s x : rget s 0%N = Some x -> 0 <= x <= STACK_TOP ->
-  step im (ADDI STACK SPILL_SPACE) s = Next (set_flags (rset s 0%N (Some (x + 2048))) None).
-Proof.
-  intros R K. change (ADDI STACK SPILL_SPACE) with (ADDI 0%N 2048). cbn [step]. change (fits32 2048) with true. cbv iota.
-  unfold need. rewrite R. rewrite wrap_small; [reflexivity|]. unfold min_int, max_int, two63, STACK_TOP in *. lia.
-Qed.
-
-(* from `cleanup` the run ends with the value of rax, the entry rsp and the entry callee-saved registers *)
-Lemma epilogue_ok pcc s sp z :
-  code_at im pcc cleanup -> frame_ok s sp -> outer_ok s sp -> rget s RETURN1 = Some z ->
-  finishes im pcc s (finish (out s) (OExit z)).
-Proof.
-  intros CA (SP & _) (TOP & K15 & K14 & K13 & K12 & K3 & K2 & KR) RAX.
-  change SPILL_SPACE with 2048 in *. unfold STACK_TOP in TOP.
-  assert (SPV : sp = 2147418112 - 2104) by lia. clear TOP.
-  unfold cleanup in CA.
-  repeat match type of CA with code_at _ _ (_ :: _) => let C := fresh "C" in apply code_at_cons in CA as [C CA] end.
-  eapply exec_to_finishes.
-  { eapply exec_next; [exact C|reflexivity|].
-    eapply exec_next; [exact C0|apply (step_ADDI_frame s sp SP); unfold STACK_TOP; lia|].
-    eapply exec_next; [exact C1|erewrite step_POP; [reflexivity|rdk; reflexivity|subst sp; stk]|].
-    eapply exec_next; [exact C2|erewrite step_POP; [reflexivity|rdk; reflexivity|subst sp; stk]|].
-    eapply exec_next; [exact C3|erewrite step_POP; [reflexivity|rdk; reflexivity|subst sp; stk]|].
-    eapply exec_next; [exact C4|erewrite step_POP; [reflexivity|rdk; reflexivity|subst sp; stk]|].
-    eapply exec_next; [exact C5|erewrite step_POP; [reflexivity|rdk; reflexivity|subst sp; stk]|].
-    eapply exec_next; [exact C6|erewrite step_POP; [reflexivity|rdk; reflexivity|subst sp; stk]|].
-    apply exec_refl. }
-  rdk.
-  match goal with |- finishes _ ?pc ?st _ =>
-    assert (RSP : rget st 0%N = Some (sp + 2048 + 8 + 8 + 8 + 8 + 8 + 8)) by (rdk; reflexivity);
-    assert (KM : kget st (sp + 2048 + 8 + 8 + 8 + 8 + 8 + 8) = Some RET_MARKER)
-      by (rdk; rewrite <- KR; f_equal; lia);
-    assert (OUT : out st = out s) by (rdk; reflexivity);
-    assert (R15 : rget st 15%N = Some (callee_marker 15)) by (rdk; exact K15);
-    assert (R14 : rget st 14%N = Some (callee_marker 14)) by (rdk; rewrite <- K14; f_equal; lia);
-    assert (R13 : rget st 13%N = Some (callee_marker 13)) by (rdk; rewrite <- K13; f_equal; lia);
-    assert (R12 : rget st 12%N = Some (callee_marker 12)) by (rdk; rewrite <- K12; f_equal; lia);
-    assert (R3 : rget st 3%N = Some (callee_marker 3)) by (rdk; rewrite <- K3; f_equal; lia);
-    assert (R2 : rget st 2%N = Some (callee_marker 2)) by (rdk; rewrite <- K2; f_equal; lia);
-    assert (R4 : rget st 4%N = Some z) by (rdk; exact RAX);
-    generalize dependent st
-  end.
-  intros st RSP KM OUT R15 R14 R13 R12 R3 R2 R4.
-  assert (ST : step im RET st = Done (rset st 0%N (Some (sp + 2048 + 8 + 8 + 8 + 8 + 8 + 8 + 8)))).
-  { cbn [step]. unfold need, withm. rewrite RSP. rewrite mload_stk by (subst sp; stk). rewrite KM.
-    change (RET_MARKER =? RET_MARKER) with true. reflexivity. }
-  pose proof (finishes_done im _ RET st _ C7 ST) as FD.
-  replace (finish (out s) (OExit z)) with
-    (finish (out (rset st 0%N (Some (sp + 2048 + 8 + 8 + 8 + 8 + 8 + 8 + 8))))
-            (final_check (rset st 0%N (Some (sp + 2048 + 8 + 8 + 8 + 8 + 8 + 8 + 8))))); [exact FD|].
-  rewrite out_rset, OUT. f_equal. unfold final_check. rewrite rget_rset_same.
-  replace (sp + 2048 + 8 + 8 + 8 + 8 + 8 + 8 + 8 =? STACK_TOP) with true by (symmetry; apply Z.eqb_eq; unfold STACK_TOP; lia).
-  cbn [negb callee_saved forallb].
-  rewrite !rget_rset_other by congruence. rewrite R2, R3, R12, R13, R14, R15, R4. rewrite !Z.eqb_refl. reflexivity.
-Qed.
-End Epilogue.
-
-(* ---------- the simulation, by induction on the fuel of the linear machine ---------- *)
-Lemma is_hash_app_ s : is_hash_label (s +++ "_") = true -> is_hash_label s = true.
-Proof. destruct s as [|c s]; cbn; auto. Qed.
 
 (* ---------- progress: a linearly well-typed statement of the fragment does not get stuck ---------- *)
 Lemma has_ext_lookup_int CL c e st sp a : rel CL c e st sp -> has_ext c a = true -> exists x, lookup_int e a = Some x.
@@ -146,33 +53,47 @@ Proof.
   apply lookup_b_Some in L as [Hin Hid]. apply lookup_of_in. rewrite (rel_ids R), <- Hid. now apply In_ids.
 Qed.
 
+Lemma stmt_int_cf s : stmt_int s = true -> stmt_cf s = true.
+Proof.
+  induction s using stmt_ind2; cbn [stmt_int stmt_cf]; intros SI; try discriminate; auto.
+  - apply andb_true_iff in SI as [A B]. rewrite (IHs B), andb_true_r.
+    rewrite forallb_forall in *. intros q Hq. specialize (A q Hq). unfold is_int_binding in A. unfold is_cf_binding.
+    destruct (bchi (fst q)), (bty (fst q)); auto; discriminate.
+  - apply andb_true_iff in SI as [A B]. now rewrite IHs1, IHs2.
+Qed.
+
+(* ---------- the simulation, by induction on the fuel of the linear machine ---------- *)
 Section Main.
 Variable im : image.
 Variable p : prog.
 Variable sp : Z.
 Variable CL : Z -> ident -> list clause -> Prop.
+Variable st0 : PM.t Z.
 Local Notation rel := (rel CL).
+Local Notation outer_ok := (outer_ok st0 sp).
 Hypothesis DEFS : forall d, In d (pdefs p) ->
   exists pcd lcd cd lcd', find_label (labels im) (show_ident (dname d) +++ "_") = Some pcd /\
     PM.find pcd (code im) = Some (LAB (show_ident (dname d) +++ "_")) /\
-    xcs (ptypes p) (dbody d) (dctx d) lcd = Ok (cd, lcd') /\
+    acs (ptypes p) (dbody d) (dctx d) lcd = Ok (cd, lcd') /\
     code_at im (Pos.succ pcd) cd /\ labels_at_nh im (Pos.succ pcd) cd.
-Hypothesis CLEAN : exists pcc, find_label (labels im) "cleanup" = Some pcc /\ code_at im pcc cleanup.
+(* `cleanup` resolves, and from there the run ends with the value of X0 (Proof/A64SimTop.v: epilogue_ok) *)
+Hypothesis CLEAN : exists pcc, find_label (labels im) "cleanup" = Some pcc /\
+  forall s z, frame_ok s sp -> outer_ok s -> rget s RETURN1 = Some z -> finishes im pcc s (finish (out s) (OExit z)).
 Hypothesis LIN : forall d, In d (pdefs p) -> lin_check (sigs_of p) (dctx d) (dbody d) = true.
 Hypothesis INT : forall d, In d (pdefs p) -> def_int d = true.
-
+Hypothesis LITS : forall d, In d (pdefs p) -> stmt_lits (dbody d) = true.
 
 Lemma sim_exec : forall fuel s c e ot st pc code lc lc',
-  stmt_int s = true -> ctx_int c = true -> lin_check (sigs_of p) c s = true ->
-  xcs (ptypes p) s c lc = Ok (code, lc') -> code_at im pc code -> labels_at_nh im pc code ->
-  rel c e st sp -> outer_ok st sp -> out st = ot ->
+  stmt_int s = true -> stmt_lits s = true -> ctx_int c = true -> lin_check (sigs_of p) c s = true ->
+  acs (ptypes p) s c lc = Ok (code, lc') -> code_at im pc code -> labels_at_nh im pc code ->
+  rel c e st sp -> outer_ok st -> out st = ot ->
   not_oof (exec_linear fuel p e s ot) -> finishes im pc st (exec_linear fuel p e s ot).
 Proof.
-  induction fuel as [|fuel IH]; intros s c e ot st pc code lc lc' SI CI LC CS CA LA R OK OUT G.
+  induction fuel as [|fuel IH]; intros s c e ot st pc code lc lc' SI SL CI LC CS CA LA R OK OUT G.
   { exfalso. apply G. reflexivity. }
   pose proof (rel_frame R) as F. pose proof (proj2 F) as SPOK.
   destruct s as [re next|label args|v t tag args next|v t cls|v t env cls next|v tag t args|n v next|a op b v next|nl v next|so a b thenc elsec|v];
-    cbn [stmt_int] in SI; try discriminate; cbn [exec_linear] in G |- *.
+    cbn [stmt_int] in SI; try discriminate; cbn [exec_linear] in G |- *; cbn [stmt_lits] in SL.
   - (* Substitute *)
     apply andb_true_iff in SI as [SI1 SI2].
     cbn [lin_check] in LC. apply andb_true_iff in LC as [_ LC]. apply andb_true_iff in LC as [LCs LC].
@@ -204,15 +125,16 @@ Proof.
     eapply exec_to_finishes.
     { eapply exec_jump; [exact CJ|cbn [step]; unfold goto_label; rewrite FL; reflexivity|].
       eapply exec_next; [exact CLb|reflexivity|apply exec_refl]. }
-    specialize (INT d IN). unfold def_int in INT. apply andb_true_iff in INT as [I1 I2].
+    pose proof (INT d IN) as INTd. unfold def_int in INTd. apply andb_true_iff in INTd as [I1 I2].
     eapply (IH (dbody d) (dctx d) e' ot st); eauto.
     eapply bind_rel; eauto. exact (lin_nodup _ _ _ (LIN d IN)).
   - (* Literal *)
+    apply andb_true_iff in SL as [SLn SL].
     cbn [lin_check] in LC. apply andb_true_iff in LC as [_ LC].
     destruct (cs_literal _ _ _ _ _ _ _ _ CS) as (tv & c2 & TV & NX & ->).
-    destruct (sim_literal im CL c e st sp n v tv R (lin_nodup _ _ _ LC) TV) as (s' & E & R' & FE).
+    destruct (sim_literal im CL c e st sp n v tv R (lin_nodup _ _ _ LC) (proj1 (lit_i64_in64 n) SLn) TV) as (s' & E & R' & FE).
     apply code_at_app in CA as [CA1 CA2]. apply labels_at_nh_app in LA as [_ LA2].
-    eapply exec_to_finishes; [apply (exec_straight_exec_to im _ pc st s' CA1 E)|].
+    eapply exec_to_finishes; [apply (run_straight_exec_to im _ pc st s' CA1 E)|].
     eapply (IH next (c ++ [mkb v Ext I64]) _ ot s'); eauto.
     + unfold ctx_int in *. rewrite forallb_app, CI. reflexivity.
     + eapply frame_eq_outer; eauto.
@@ -227,7 +149,7 @@ Proof.
     apply code_at_app in CA as [CA1 CA2]. apply labels_at_nh_app in LA as [_ LA2].
     destruct (eval_op op x y) as [z|w] eqn:EV.
     + destruct (sim_op im CL c e st sp a op b v x y z tv ta tb R (lin_nodup _ _ _ LC) LA1 LB1 EV TV TA TB) as (s' & E & R' & FE).
-      eapply exec_to_finishes; [apply (exec_straight_exec_to im _ pc st s' CA1 E)|].
+      eapply exec_to_finishes; [apply (run_straight_exec_to im _ pc st s' CA1 E)|].
       eapply (IH next (c ++ [mkb v Ext I64]) _ ot s'); eauto.
       * unfold ctx_int in *. rewrite forallb_app, CI. reflexivity.
       * eapply frame_eq_outer; eauto.
@@ -241,12 +163,12 @@ Proof.
     destruct (cs_print _ _ _ _ _ _ _ _ CS) as (tv & c2 & TV & NX & ->).
     destruct (sim_print im CL c e st sp nl v z tv R LV TV) as (s' & E & R' & O & AE).
     apply code_at_app in CA as [CA1 CA2]. apply labels_at_nh_app in LA as [_ LA2].
-    eapply exec_to_finishes; [apply (exec_straight_exec_to im _ pc st s' CA1 E)|].
+    eapply exec_to_finishes; [apply (run_straight_exec_to im _ pc st s' CA1 E)|].
     eapply (IH next c e ((nl, z) :: ot) s'); eauto.
     + eapply above_eq_outer; eauto.
     + congruence.
   - (* IfC *)
-    apply andb_true_iff in SI as [SI1 SI2].
+    apply andb_true_iff in SI as [SI1 SI2]. apply andb_true_iff in SL as [SL1 SL2].
     cbn [lin_check] in LC. apply andb_true_iff in LC as [_ LC].
     apply andb_true_iff in LC as [LC LCe]. apply andb_true_iff in LC as [LCo LCt]. apply andb_true_iff in LCo as [HA HB].
     destruct (has_ext_lookup_int CL c e st sp a R HA) as (x & LA1).
@@ -255,7 +177,7 @@ Proof.
     destruct LB1 as (y & LB1). rewrite LA1, LB1 in G |- *.
     destruct (sim_ifc im CL c e st sp so a b x y (ptypes p) thenc elsec lc code lc' pc R LA1 LB1 CS CA LA)
       as (c1 & c2 & lc2 & c3 & s' & -> & EL & TH & X & R' & FE).
-    assert (OK' : outer_ok s' sp) by (eapply frame_eq_outer; eauto).
+    assert (OK' : outer_ok s') by (eapply frame_eq_outer; eauto).
     assert (O' : out s' = ot) by (destruct FE as (_ & O & _); congruence).
     eapply exec_to_finishes; [exact X|].
     apply code_at_app in CA as [_ CA]. apply code_at_app in CA as [CA2 CA]. apply code_at_app in CA as [_ CA3].
@@ -271,11 +193,11 @@ Proof.
     destruct (cs_exit _ _ _ _ _ _ CS) as (tv & TV & -> & _).
     destruct (sim_exit_mov im CL c e st sp v z tv R LV TV) as (s' & E & RAX & F' & FE).
     apply code_at_app in CA as [CA1 CA2]. apply code_at_cons in CA2 as [CJ _].
-    destruct CLEAN as (pcc & FL & CAc).
-    eapply exec_to_finishes; [apply (exec_straight_exec_to im _ pc st s' CA1 E)|].
+    destruct CLEAN as (pcc & FL & EPI).
+    eapply exec_to_finishes; [apply (run_straight_exec_to im _ pc st s' CA1 E)|].
     eapply exec_to_finishes.
     { eapply exec_jump; [exact CJ|cbn [step]; unfold goto_label; rewrite FL; reflexivity|apply exec_refl]. }
     replace ot with (out s') by (destruct FE as (_ & O & _); congruence).
-    eapply epilogue_ok; eauto. eapply frame_eq_outer; eauto.
+    apply EPI; auto. eapply frame_eq_outer; eauto.
 Qed.
 End Main.
